@@ -425,3 +425,7 @@ Example encoders_on_empty_words :
   encode_by 3 [[]; []] = s2r "_" /\ decode_by 5 (s2r "foo_") = Ok [s2r "foo"; []] /\
   pipeline 5 0 0 (s2r "foo_") = Ok [s2r "foo"].
 Proof. repeat split; vm_compute; reflexivity. Qed.
+
+From Dials Require Import Text.CaseTitle.
+Lemma encode_go_then_decode_total_l e d ws : total (decode_by d (encode_by_go e ws)).
+Proof. apply decode_by_total_l. Qed.
